@@ -358,6 +358,8 @@ CheckCb(tk, e, tk2) ==
     \* ---- plan bookkeeping visible in every view
     \cup V0(PlanActsOK(pn, e.acts, 1), "C10", "append / remove result disagrees with the exact task capacity")
     \cup V0(e.pfl = 1, "C10", "the plan's iterators, first(), last() and emptiness test (mutable and const forms) do not describe one sequence")
+    \cup V0(e.pfl2 = 1, "C10", "a read-only view of the plan obtained before the plan was edited no longer describes the plan (iteration, first(), last(), emptiness)")
+    \cup V(tk.op = "load" /\ tk.oa % 2 = 1 => e.req = NoT, "C06", "a request discarded by load() is still reported as waiting to the callbacks load() runs")
     \cup V(CtrlKind(e.m) >= 1 /\ ~step /\ tk.incall /\ tk.dpos > 0 /\ ~(IsPlanCb(tk.dm) /\ tk.dpos = Len(DeclOrder(tk.dm, tk.ds))) /\ HasPlanAct(tk.lastacts)
              => pn = pb,
            "C10", "the plan seen after plan edits is not the sequence of tasks appended and not removed")
@@ -452,6 +454,7 @@ CheckRet(tk, e, tk2) ==
     \cup V0(e.pne = (IF e.plan # <<>> THEN 1 ELSE 0) /\ e.pfirst = (IF e.plan # <<>> THEN e.plan[1] ELSE NoT)
             /\ e.plast = (IF e.plan # <<>> THEN Last(e.plan) ELSE NoT), "C10", "first()/last()/emptiness test disagree with iteration")
     \cup V0(Len(e.plan) <= Cap, "C10", "more tasks than the task capacity")
+    \cup V0(e.pfl = 1, "C10", "a read-only view of the plan obtained before the operation no longer describes the plan afterwards")
     \cup V(tk.op = "pc" => e.r = (IF Len(pb) < Cap THEN 1 ELSE 0) /\ e.plan = (IF Len(pb) < Cap THEN Append(pb, <<tk.oa, tk.ob, 0>>) ELSE pb),
            "C10", "append succeeds exactly when fewer than capacity tasks are present, else leaves the plan untouched")
     \cup V(tk.op = "pw" => e.r = (IF Len(pb) < Cap THEN 1 ELSE 0) /\ e.plan = (IF Len(pb) < Cap THEN Append(pb, <<tk.oa, tk.ob, tk.opp>>) ELSE pb),
